@@ -14,26 +14,31 @@ From Coq Require Import List Arith Bool.
 From PV Require Import Lib.ObjGraph Model.C06_deepcopy Proofs.C06_deepcopy Model.C05_frame Proofs.C05_frame.
 Import ListNotations.
 
+(* `sd` = how ast.py treats a dotted name found through an unqualified import (Model/C05_frame.v find);
+   it is read from the source on every run.  sd = true is the code with fixes/C05_import_dotted.diff. *)
+
 (* frame: with copy=True (tree.py:1242 as it is) one request leaves the parsed tree EXACTLY as it
    was — whatever flatten writes inside its footprint — and moves the neutral fields only by the
    three exact writes *)
-Theorem C05_frame (R : Type) (prog_of : path -> prog R) (st st' : world * xmap) (p : path) (r : R) (t0 : tree) :
-  nth_error (fst st) 0 = Some t0 -> fstep R prog_of true st p st' r ->
-  r = exec (prog_of p) t0 (snd st) /\ nth_error (fst st') 0 = Some t0 /\ nstar t0 (snd st) (snd st').
-Proof. exact (frame R prog_of st p st' r t0). Qed.
+Theorem C05_frame (R : Type) (prog_of : path -> prog R) (sd : bool) (st st' : world * xmap) (p : path) (r : R) (t0 : tree) :
+  nth_error (fst st) 0 = Some t0 -> fstep R prog_of sd true st p st' r ->
+  r = exec sd (prog_of p) t0 (snd st) /\ nth_error (fst st') 0 = Some t0 /\ nstar t0 (snd st) (snd st').
+Proof. exact (frame R prog_of sd st p st' r t0). Qed.
 Print Assumptions C05_frame.
+
+(* class lookup with a sound import memo = the un-memoised search (induction on the climb): for every
+   (dotted) name when sd = true, for simple names whatever sd *)
+Theorem C05_memo_transparent (sd : bool) (t : tree) (xm : xmap) (rp : list key) (k : key) (ks : list key) :
+  memo_sound t xm -> sd = true \/ ks = [] ->
+  find sd t xm rp k ks = find0 sd t (fun p => stars (xget xm p)) rp k ks.
+Proof. intros Hs Hc. exact (find_memo_eq sd t xm ks Hs Hc rp k). Qed.
+Print Assumptions C05_memo_transparent.
 
 (* the three exact writes are invisible to every request (formerly a premise) *)
 Theorem C05_neutral (R : Type) (t : tree) (xm xm' : xmap) (pr : prog R) :
-  memo_sound t xm -> nstar t xm xm' -> exec pr t xm' = exec pr t xm.
-Proof. intros Hs Hn. exact (exec_neutral t xm xm' Hs Hn pr). Qed.
+  memo_sound t xm -> nstar t xm xm' -> exec true pr t xm' = exec true pr t xm.
+Proof. intros Hs Hn. exact (exec_neutral true t xm xm' Hs Hn pr (okprog_true pr)). Qed.
 Print Assumptions C05_neutral.
-
-(* class lookup with a sound import memo = the un-memoised search (induction on the climb) *)
-Theorem C05_memo_transparent (t : tree) (xm : xmap) (rp : list key) (k : key) :
-  memo_sound t xm -> find t xm rp k = find0 t (fun p => stars (xget xm p)) rp k.
-Proof. intros Hs. exact (find_memo_eq t xm Hs rp k). Qed.
-Print Assumptions C05_memo_transparent.
 
 (* sequences: any finite sequence of requests (repeats, different classes, classes used by earlier
    ones) gives at every step the result of that request on the initial state (a fresh parse: empty
@@ -41,12 +46,36 @@ Print Assumptions C05_memo_transparent.
 Theorem C05_sequences (R : Type) (prog_of : path -> prog R)
     (ps : list path) (st st' : world * xmap) (rs : list R) (t0 : tree) :
   nth_error (fst st) 0 = Some t0 -> memo_sound t0 (snd st) ->
-  fseq R prog_of true st ps st' rs -> rs = map (fun p => exec (prog_of p) t0 (snd st)) ps.
+  fseq R prog_of true true st ps st' rs -> rs = map (fun p => exec true (prog_of p) t0 (snd st)) ps.
 Proof.
   intros Ht Hs Hseq.
-  exact (sequences_gen R prog_of ps st st' rs Hseq t0 (snd st) Ht Hs (nstar_refl t0 (snd st))).
+  exact (sequences_gen R prog_of true (fun p => okprog_true (prog_of p)) ps st st' rs Hseq t0 (snd st) Ht Hs
+                       (nstar_refl t0 (snd st))).
 Qed.
 Print Assumptions C05_sequences.
+
+(* the code before fixes/C05_import_dotted.diff (sd = false; known finding dotted-name-through-unqualified-
+   import): the memo IS visible to a dotted lookup (witness), and the sequence theorem holds for the
+   requests whose lookups through the parsed tree are all simple names *)
+Theorem C05_dotted_refuted :
+  memo_sound exd_tree exd_xm0 /\ nstar exd_tree exd_xm0 exd_xm1 /\
+  find false exd_tree exd_xm0 [5] 2 [3] = Some [1; 2] /\
+  find false exd_tree exd_xm1 [5] 2 [3] = Some [1; 2; 3] /\
+  find true exd_tree exd_xm0 [5] 2 [3] = Some [1; 2; 3] /\
+  find true exd_tree exd_xm1 [5] 2 [3] = Some [1; 2; 3].
+Proof. exact dotted_refuted. Qed.
+Print Assumptions C05_dotted_refuted.
+
+Theorem C05_sequences_carved (R : Type) (prog_of : path -> prog R)
+    (ps : list path) (st st' : world * xmap) (rs : list R) (t0 : tree) :
+  (forall p, okprog false (prog_of p)) ->
+  nth_error (fst st) 0 = Some t0 -> memo_sound t0 (snd st) ->
+  fseq R prog_of false true st ps st' rs -> rs = map (fun p => exec false (prog_of p) t0 (snd st)) ps.
+Proof.
+  intros Hok Ht Hs Hseq.
+  exact (sequences_gen R prog_of false Hok ps st st' rs Hseq t0 (snd st) Ht Hs (nstar_refl t0 (snd st))).
+Qed.
+Print Assumptions C05_sequences_carved.
 
 (* the lookup of an existing class with copy=True is C06's detached copy: a new tree with the
    same names and content whose root keeps the ORIGINAL parent *)
@@ -60,8 +89,8 @@ Print Assumptions C05_lookup_copy.
    requested class consumed in place) makes the second identical request differ *)
 Theorem C05_refuted :
   exists st st1 st2 p r1 r2,
-    fseq (option cdata) ex5_prog false st [p; p] st2 [r1; r2] /\
-    fstep (option cdata) ex5_prog false st p st1 r1 /\ r1 <> r2.
+    fseq (option cdata) ex5_prog true false st [p; p] st2 [r1; r2] /\
+    fstep (option cdata) ex5_prog true false st p st1 r1 /\ r1 <> r2.
 Proof. exact refuted_no_copy. Qed.
 Print Assumptions C05_refuted.
 
@@ -74,11 +103,11 @@ Definition ex5_lib : tree :=
     ([5], Info (CD [] 0) (Some (0, [])) None); ([5; 6], Info (CD [9] 0) (Some (0, [5])) None) ].
 Definition ex5_xm : xmap := [ ([5], Ext [[1]; [2]] [] [(3, CSym 0 10 (Some 11))] false) ].
 Definition ex5_prog2 (p : path) : prog (option path * option nat) :=
-  AskFind [6; 5] 7 (fun a => AskConst [5] 3 (fun b => Ret (a, b))).
+  AskFind [6; 5] 7 [] (fun a => AskConst [5] 3 (fun b => Ret (a, b))).
 
 Example C05_example :
   memo_sound ex5_lib ex5_xm /\
-  exists st', fseq _ ex5_prog2 true ([ex5_lib], ex5_xm) [[5; 6]; [5; 6]] st'
+  exists st', fseq _ ex5_prog2 true true ([ex5_lib], ex5_xm) [[5; 6]; [5; 6]] st'
                    [(Some [1; 7], Some 11); (Some [1; 7], Some 11)] /\
               snd st' <> ex5_xm.
 Proof.
